@@ -58,7 +58,8 @@ def generate(seed, tier):
     K = max(2, min(K, len(used)))
     weighted = rng.random() < 0.5
     return {"seed": seed, "q": rng.choice([0.0, 0.2, 0.5]), "spec": spec, "weighted": weighted,
-            "weights": [rng.randint(1, 4) for _ in spec["edges"]], "K": K, "sut_seed": rng.choice([0, 0, 1, rng.randint(0, 10**5), rng.randint(0, 10**5), rng.randint(0, 10**5)]),
+            "weights": [rng.randint(1, 4) for _ in spec["edges"]], "K": K, "sut_seed": rng.choice([0, 0, 1, None, rng.randint(0, 10**5), rng.randint(0, 10**5), rng.randint(0, 10**5)]),
+            "reuse_object": rng.random() < 0.35,
             "n_real": rng.randint(1, 3), "max_iter": rng.randint(1, 30 if tier == "quick" else 80),
             "normalizeU": rng.random() < 0.4, "baseline_r0": rng.random() < 0.5,
             "min_value_par": rng.choice([0.0, 0.0, 1e-5]),
@@ -138,7 +139,7 @@ def _start_arrays(case, h):
     return _START[key]
 
 
-def _fit_mt(case, run_idx, clock_mode, perturb):
+def _fit_mt(case, run_idx, clock_mode, perturb, reuse=None):
     from hypergraphx.communities.hypergraph_mt.model import HypergraphMT
 
     h = _gen.build_hypergraph(case["spec"], weights=case["weights"], weighted=case["weighted"])
@@ -155,8 +156,9 @@ def _fit_mt(case, run_idx, clock_mode, perturb):
         with fac, contextlib.redirect_stdout(io.StringIO()):
             if perturb:
                 fac.perturb(7)
-            m = HypergraphMT(n_realizations=case["n_real"], max_iter=case["max_iter"], min_value_par=case["min_value_par"],
-                             verbose=False, check_convergence_every=1)
+            m = reuse if reuse is not None else HypergraphMT(
+                n_realizations=case["n_real"], max_iter=case["max_iter"], min_value_par=case["min_value_par"],
+                verbose=False, check_convergence_every=1)
             u, w, L = m.fit(h, K=case["K"], seed=case["sut_seed"], normalizeU=case["normalizeU"], baseline_r0=case["baseline_r0"], **extra)
     finally:
         _uninstall(saved)
@@ -241,10 +243,13 @@ def execute(case):
         stats["mt_fits"] += 1
         # same seed again: other clock, perturbed globals
         try:
-            h2, m2, u2, w2, L2, clock2, info2 = _fit_mt(case, 1, "wild", True)
+            t1_saved = m.train_info.drop(columns=["runtime"]).values.tolist()
+            h2, m2, u2, w2, L2, clock2, info2 = _fit_mt(case, 1, "wild", True, reuse=m if case.get("reuse_object") else None)
+            if case.get("reuse_object"):
+                stats["same_object_fitted_twice"] = stats.get("same_object_fitted_twice", 0) + 1
         except Exception as e:  # noqa
             raise Violation("C17/mt/raised-on-second-run", {"exception": repr(e), **ctx})
-        t1 = m.train_info.drop(columns=["runtime"]).values.tolist()
+        t1 = t1_saved
         t2 = m2.train_info.drop(columns=["runtime"]).values.tolist()
         if not (np.array_equal(u, u2) and np.array_equal(w, w2) and L == L2) or t1 != t2:
             raise Violation("C17/mt/same-seed-different-result", {
@@ -264,7 +269,8 @@ def execute(case):
                 with fac, contextlib.redirect_stdout(io.StringIO()):
                     if rep:
                         fac.perturb(5)
-                    x = np.array(HySC(seed=case["sut_seed"], n_realizations=3).fit(hh, K=K))
+                    sc = HySC(n_realizations=3) if case["sut_seed"] is None else HySC(seed=case["sut_seed"], n_realizations=3)
+                    x = np.array(sc.fit(hh, K=K))
             except Exception as e:  # noqa
                 raise Violation("C17/hysc/raised", {"exception": repr(e), **ctx})
             outs.append(x)
